@@ -148,6 +148,15 @@ func (fr *Frame) callFunc(b *ssa.BasicBlock, f *ssa.Function, c *ssa.CallCommon,
 	if f.Pkg != nil && (name == "verif_forall" || name == "verif_exists") {
 		return fr.quantifier(name == "verif_forall", c, args, st, reach)
 	}
+	if f.Pkg != nil && name == "verif_fresh" {
+		// the object was allocated during this execution of the function under contract
+		n0 := vc.frame.next0
+		if n0 == "" {
+			n0 = "g_next0"
+		}
+		ref := app("g_iref", args[0].S)
+		return &Val{T: types.Typ[types.Bool], S: vc.def("Bool", "fresh", sAnd(sNot(sEq(ref, bvConst(0, 64))), app("bvuge", ref, n0)))}
+	}
 	if m := eng.modelFor(f); m != nil {
 		return m.apply(fr, b, f, c, args, st, reach, pos)
 	}
